@@ -1,6 +1,7 @@
 import MpVerif.C06.Lemmas
 import MpVerif.C06.LemmasReal
 import Mathlib.Data.Rat.Floor
+import Mathlib.Algebra.Order.Ring.Pow
 /-!
 # C06 — property theorems
 
@@ -900,5 +901,174 @@ theorem C06_div (e : Env) (val : Val) (h : Feasible e val) (a b : Nat) :
       exact mul_le_corner hxl hxu hrec.1 hrec.2 M (q2 ▸ hMl _ (by simp)) (q1 ▸ hMl _ (by simp))
         (q4 ▸ hMl _ (by simp)) (q3 ▸ hMl _ (by simp))
   · exact default_contains _
+
+/-! ## power -/
+
+theorem powi_nat (b : ER) (k : Nat) (hk : 1 ≤ k) :
+    powi b (k : Int) = match b with
+      | fin q => fin (q ^ k)
+      | pinf => pinf
+      | ninf => if k % 2 = 0 then pinf else ninf
+      | nan => nan := by
+  have hk0 : k ≠ 0 := by omega
+  have hnn : ¬ ((k : Int) < 0) := by omega
+  cases b with
+  | fin q => simp [powi, hnn, zpow_natCast]
+  | pinf => simp [powi, hk0]
+  | ninf =>
+    have : ((k : Int) % 2 = 0) ↔ (k % 2 = 0) := by omega
+    simp [powi, hk0, this]
+  | nan => rfl
+
+theorem powi_ne_nan (b : ER) (k : Nat) (hk : 1 ≤ k) (hb : b ≠ nan) : powi b (k : Int) ≠ nan := by
+  rw [powi_nat b k hk]
+  cases b with
+  | fin q => simp
+  | pinf => simp
+  | ninf => by_cases h : k % 2 = 0 <;> simp [h]
+  | nan => exact absurd rfl hb
+
+theorem IsInt.pow {x : Rat} (hx : IsInt x) (k : Nat) : IsInt (x ^ k) := by
+  obtain ⟨z, rfl⟩ := hx; exact ⟨z ^ k, by simp⟩
+
+/-- a lower and an upper bound, in either order, give `[smin, smax]` -/
+theorem order_pair (a b : ER) (v : Rat) (ha : lbOK a v) (hb : ubOK b v) :
+    lbOK (smin a b) v ∧ ubOK (smax a b) v ∧ lbOK (smin b a) v ∧ ubOK (smax b a) v := by
+  cases a <;> cases b <;> simp_all [smin, smax, ER.lt, lbOK, ubOK]
+  next p q =>
+    have hpq : p ≤ q := le_trans ha hb
+    have h1 : ¬ q < p := not_lt.mpr hpq
+    refine ⟨by simp [h1, lbOK]; exact ha, ?_, ?_, by simp [h1, ubOK]; exact hb⟩
+    · by_cases h : p < q <;> simp [h, ubOK]
+      · exact hb
+      · linarith [not_lt.mp h]
+    · by_cases h : p < q <;> simp [h, lbOK]
+      · exact ha
+      · linarith [not_lt.mp h]
+
+theorem pow_odd_lb (b : ER) (x : Rat) (k : Nat) (hk : 1 ≤ k) (ho : Odd k) (h : lbOK b x) : lbOK (powi b k) (x ^ k) := by
+  rw [powi_nat b k hk]
+  have hm : ¬ k % 2 = 0 := by rcases ho with ⟨m, rfl⟩; omega
+  cases b <;> simp_all [lbOK]
+  exact (Odd.pow_le_pow ho).mpr h
+theorem pow_odd_ub (b : ER) (x : Rat) (k : Nat) (hk : 1 ≤ k) (ho : Odd k) (h : ubOK b x) : ubOK (powi b k) (x ^ k) := by
+  rw [powi_nat b k hk]
+  cases b <;> simp_all [ubOK]
+  exact (Odd.pow_le_pow ho).mpr h
+theorem pow_nonneg_ub (b : ER) (x : Rat) (k : Nat) (hk : 1 ≤ k) (h0 : 0 ≤ x) (h : ubOK b x) : ubOK (powi b k) (x ^ k) := by
+  rw [powi_nat b k hk]
+  cases b <;> simp_all [ubOK]
+  exact pow_le_pow_left₀ h0 h k
+theorem pow_even_nonpos_ub (b : ER) (x : Rat) (k : Nat) (hk : 1 ≤ k) (he : Even k) (h0 : x ≤ 0) (h : lbOK b x) :
+    ubOK (powi b k) (x ^ k) := by
+  rw [powi_nat b k hk]
+  have hm : k % 2 = 0 := by rcases he with ⟨m, rfl⟩; omega
+  cases b <;> simp_all [ubOK, lbOK]
+  next q =>
+    have := pow_le_pow_left₀ (by linarith : (0 : Rat) ≤ -x) (by linarith : -x ≤ -q) k
+    rwa [Even.neg_pow he, Even.neg_pow he] at this
+
+theorem even_iff_ratIsInt_half (k : Nat) : ratIsInt ((k : Rat) / 2) = true ↔ Even k := by
+  constructor
+  · intro h
+    obtain ⟨z, hz⟩ := isInt_of_ratIsInt h
+    have h2 : (k : Rat) = 2 * z := by linarith
+    have h3 : (k : Int) = 2 * z := by exact_mod_cast h2
+    exact ⟨z.toNat, by omega⟩
+  · rintro ⟨m, rfl⟩
+    have : ((m + m : Nat) : Rat) / 2 = (m : Rat) := by push_cast; ring
+    rw [this]; simp [ratIsInt]
+
+
+/-- **power with an integer exponent `k ≥ 2`** (`PreprocessConstraint(PowConstraint&)`): odd `k` — monotone, `[lb^k, ub^k]`;
+even `k` — `[lb^k, ub^k]` for `lb ≥ 0`, `[ub^k, lb^k]` for `ub ≤ 0`, `[0, max(lb^k, ub^k)]` for a zero-crossing box; the type
+of the argument is kept.  All boxes (infinite bounds included: `(±∞)^k`). -/
+theorem C06_pow_nat (e : Env) (val : Val) (h : Feasible e val) (a k : Nat) (hk : 2 ≤ k) :
+    ∃ pre, preproPow e a (k : Rat) = .keep pre (.pow a k) ∧ pre.Contains (Con.eval tr trp val (.pow a k)) := by
+  obtain ⟨hl, hu, hi⟩ := h a
+  have hk1 : 1 ≤ k := by omega
+  have hp0 : ¬ ((k : Rat) = 0) := by exact_mod_cast (by omega : ¬ k = 0)
+  have hp1 : ¬ ((k : Rat) = 1) := by exact_mod_cast (by omega : ¬ k = 1)
+  have hint : ratIsInt (k : Rat) = true := by simp [ratIsInt]
+  have hnn : ¬ ((k : Rat) < 0) := by simp
+  have hden : (k : Rat).den = 1 := by simp
+  have hnum : (k : Rat).num = (k : Int) := by simp
+  have hval : Con.eval tr trp val (.pow a k) = val a ^ k := by
+    simp only [Con.eval, hden, if_true, hnum, zpow_natCast]
+  have hpow : ∀ b, ER.pow b (k : Rat) = some (powi b (k : Int)) := by
+    intro b; simp only [ER.pow, hden, if_true, hnum]
+  unfold preproPow
+  simp only [hp0, hp1, if_false, hint, Bool.not_true, Bool.false_and, hnn, decide_false, Bool.or_self, hpow,
+    Bool.false_eq_true, Bool.true_and]
+  have hnn' : (0 : Rat) ≤ (k : Rat) := by simp
+  simp only [hnn', decide_true, if_true]
+  rw [hval]
+  -- the bounds
+  by_cases hev : ratIsInt ((k : Rat) / 2) = true
+  · have he : Even k := (even_iff_ratIsInt_half k).mp hev
+    by_cases hneg : lt (e a).lb (fin 0) = true
+    · by_cases hpos : lt (fin 0) (e a).ub = true
+      · -- zero-crossing box
+        simp only [hev, hneg, hpos, Bool.and_self, if_true]
+        refine ⟨_, rfl, ?_⟩
+        have h0 : (0 : Rat) ≤ val a ^ k := Even.pow_nonneg he _
+        have hub : ubOK (smax (powi (e a).lb k) (powi (e a).ub k)) (val a ^ k) := by
+          rcases le_total 0 (val a) with hx | hx
+          · exact smax_ub_right _ _ _ (pow_nonneg_ub _ _ k hk1 hx hu) (powi_ne_nan _ k hk1 (ne_nan_of_lbOK hl))
+          · exact smax_ub_left _ _ _ (pow_even_nonpos_ub _ _ k hk1 he hx hl) (powi_ne_nan _ k hk1 (ne_nan_of_ubOK hu))
+        obtain ⟨o1, o2, _, _⟩ := order_pair (fin 0) _ _ (by simpa [lbOK] using h0) hub
+        exact ⟨narrow_lb _ _ _ (by simp [Pre.setType, lbOK]) (Or.inr o1),
+               narrow_ub _ _ _ (by simp [Pre.setType, ubOK]) (Or.inr o2), fun hh => (hi hh).pow k⟩
+      · -- ub ≤ 0: decreasing
+        simp only [hev, hneg, hpos, Bool.and_false, Bool.and_true, Bool.false_eq_true, if_false]
+        refine ⟨_, rfl, ?_⟩
+        have hx : val a ≤ 0 := by
+          cases hub : (e a).ub <;> simp_all [ER.lt, ubOK]; linarith
+        have hup := pow_even_nonpos_ub _ _ k hk1 he hx hl
+        have hlo : lbOK (powi (e a).ub k) (val a ^ k) := by
+          rw [powi_nat _ k hk1]
+          cases hub : (e a).ub <;> simp_all [ER.lt, ubOK, lbOK]
+          next q =>
+            have := pow_le_pow_left₀ (by linarith : (0 : Rat) ≤ -q) (by linarith : -q ≤ -val a) k
+            rwa [Even.neg_pow he, Even.neg_pow he] at this
+        obtain ⟨_, _, o3, o4⟩ := order_pair _ _ _ hlo hup
+        exact ⟨narrow_lb _ _ _ (by simp [Pre.setType, lbOK]) (Or.inr o3),
+               narrow_ub _ _ _ (by simp [Pre.setType, ubOK]) (Or.inr o4), fun hh => (hi hh).pow k⟩
+    · -- lb ≥ 0: increasing
+      simp only [hev, hneg, Bool.and_false, Bool.false_and, Bool.false_eq_true, if_false]
+      refine ⟨_, rfl, ?_⟩
+      have hlb : ∃ q, (e a).lb = fin q ∧ 0 ≤ q := by
+        cases hlb : (e a).lb <;> simp_all [ER.lt, lbOK]
+      obtain ⟨q, hq, hq0⟩ := hlb
+      have hx : 0 ≤ val a := by rw [hq] at hl; simp only [lbOK] at hl; linarith
+      have hup := pow_nonneg_ub _ _ k hk1 hx hu
+      have hlo : lbOK (powi (e a).lb k) (val a ^ k) := by
+        rw [hq, powi_nat _ k hk1]; simp only [lbOK]
+        rw [hq] at hl; exact pow_le_pow_left₀ hq0 hl k
+      obtain ⟨o1, o2, _, _⟩ := order_pair _ _ _ hlo hup
+      exact ⟨narrow_lb _ _ _ (by simp [Pre.setType, lbOK]) (Or.inr o1),
+             narrow_ub _ _ _ (by simp [Pre.setType, ubOK]) (Or.inr o2), fun hh => (hi hh).pow k⟩
+  · -- odd exponent: monotone
+    have ho : Odd k := by
+      rcases Nat.even_or_odd k with he | ho
+      · exact absurd ((even_iff_ratIsInt_half k).mpr he) hev
+      · exact ho
+    simp only [hev, Bool.false_and, Bool.false_eq_true, if_false]
+    refine ⟨_, rfl, ?_⟩
+    obtain ⟨o1, o2, _, _⟩ := order_pair _ _ _ (pow_odd_lb _ _ k hk1 ho hl) (pow_odd_ub _ _ k hk1 ho hu)
+    exact ⟨narrow_lb _ _ _ (by simp [Pre.setType, lbOK]) (Or.inr o1),
+           narrow_ub _ _ _ (by simp [Pre.setType, ubOK]) (Or.inr o2), fun hh => (hi hh).pow k⟩
+
+
+/-- **power, exponents 0 and 1**: `x^0` is replaced by the constant 1, `x^1` by `x` itself — both exact. -/
+theorem C06_pow_01 (e : Env) (val : Val) (a : Nat) :
+    (∃ pre, preproPow e a 0 = .keep pre (.pow a 0) ∧ pre.Contains (Con.eval tr trp val (.pow a 0)) ∧ pre.isConstant = true) ∧
+    (preproPow e a 1 = .alias a ∧ val a = Con.eval tr trp val (.pow a 1)) := by
+  constructor
+  · refine ⟨({} : Pre).narrow (fin 1) (fin 1), by simp [preproPow], ?_, by decide +kernel⟩
+    have : Con.eval tr trp val (.pow a 0) = 1 := by simp [Con.eval]
+    rw [this]
+    exact fresh_range_sound' (fin 1) (fin 1) 1 (Or.inr (by simp [lbOK])) (Or.inr (by simp [ubOK]))
+  · exact ⟨by simp [preproPow], by simp [Con.eval]⟩
 
 end MpVerif.C06
